@@ -5,13 +5,17 @@ string is observed (bytes, size, terminator, storage class, whether data() moved
 a failed set is printed, and live new[] blocks must be back to baseline at the end."""
 import vlib
 from str_gen import *
+from mem_gen import consts
 from C04 import StrCheck
+import C16
 
 
 class C18(StrCheck):
     pid = 'C18'
     rule = ('directed: each failing operation (set / operator= from ill-formed UTF-8 as rvalue buffer, C string, constructor; '
-            '+= and + with a code point above U+10FFFF; set / from_utf16 / set from ill-formed UTF-16 and UTF-32; to_latin_1 '
+            'failing conversions tailored so that the would-be result has exactly the target\'s byte length and the invalid '
+            'unit follows a valid prefix; string_stream insertion of valid and ill-formed UTF-16/UTF-32/wchar_t text at '
+            'fill levels around every capacity boundary; += and + with a code point above U+10FFFF; set / from_utf16 / set from ill-formed UTF-16 and UTF-32; to_latin_1 '
             'without substitution; hex_decode / base64_decode of bad input; ST::format with unterminated / unknown / missing / '
             'out-of-range / ill-formed pieces) against targets of every size class, six in a row, followed by normal use of '
             'the target; seeded random histories mixing failing (40%) and succeeding operations. '
@@ -23,6 +27,38 @@ class C18(StrCheck):
         n = 400 if tier == 'quick' else 8000
         for _ in range(n):
             yield 'str 4 ' + ';'.join(failing_history(rng, rng.choice([8, 12, 16])))
+        # string_stream: insertion of wide text, valid and ill-formed, with the stream filled to every position
+        # around its capacity boundaries (a failing insertion must leave the stream unchanged and leak nothing,
+        # also when its would-be result needs a growth)
+        stk = consts()['stack_string_size']
+        bad16 = ['d800', '00300031003200330034003500360037d800', 'dc0000410042', '0041' * 40 + 'd83d']
+        bad32 = ['00110000', '00000041' * 12 + 'ffffffff']
+        good16 = [('00e900410042', 'c3a94142'), ('d83dde00', 'f09f9880'), ('0041' * 30, '41' * 30)]
+        good32 = [('0001f600', 'f09f9880'), ('000020ac00000041', 'e282ac41')]
+        fills = [0, 1, stk - 12, stk - 6, stk - 1, stk, stk + 1, 2 * stk - 6, 2 * stk - 2, 2 * stk, 4 * stk - 5]
+        if tier == 'thorough':
+            fills += list(range(stk - 16, stk + 2)) + list(range(2 * stk - 16, 2 * stk + 2))
+        for fill in fills:
+            ops = ['new,0', 'appc,0,120,%d' % fill] if fill else ['new,0']
+            for op, u in [('shl16', bad16[0]), ('shl16s', bad16[1]), ('shl16v', bad16[2]), ('shl16s', bad16[3]),
+                          ('shl32', bad32[0]), ('shl32s', bad32[1]), ('shlw', bad32[1])]:
+                ops.append('%s,0,%s,M=throw' % (op, u))
+            for op, (u, m) in [('shl16', good16[0]), ('shl16s', good16[1]), ('shl16v', good16[2]), ('shl32s', good32[0]), ('shlw', good32[1])]:
+                ops.append('%s,0,%s,M=%s' % (op, u, m))
+            ops.append('shl16s,0,%s,M=throw' % bad16[1])
+            ops += ['app,0,7a', 'move,1,0', 'shl32s,0,%s,M=throw' % bad32[1], 'shl32s,1,%s,M=throw' % bad32[1], 'app,0,79', 'del,0', 'del,1']
+            yield 'ss 3 ' + ';'.join(ops)
+
+
+    def allowed(self, case, impl, spec):
+        if case.startswith('ss '):
+            return C16.CHECK.allowed(case, impl, spec)
+        return StrCheck.allowed(self, case, impl, spec)
+
+    def same(self, case, impl, model):
+        if case.startswith('ss '):
+            return C16.CHECK.same(case, impl, model)
+        return StrCheck.same(self, case, impl, model)
 
 
 CHECK = C18()
